@@ -25,9 +25,15 @@ Fns(sh) ==
     [] sh = "matchb" -> << [params |-> <<>>, body |-> Blk(<<P, [k |-> "matchstmt", subj |-> One, bind |-> "z", b |-> CallS(1)], P>>)] >>
     [] sh = "matche" -> << [params |-> <<>>, body |-> Blk(<<P, [k |-> "set", n |-> "v", e |-> [k |-> "match", subj |-> One, bind |-> "z", body |-> CallE(1)]], P>>)] >>
 
-Contexts == {"B", "P", "PAT", "E"}
+\* "BW": from a BEGIN rule through one extra wrapper function (shifts which push -- a call
+\* or a <match> scope -- is the one that hits the limit)
+Contexts == {"B", "P", "PAT", "E", "BW"}
+Wrapper == [params |-> <<>>, body |-> Blk(<<P, CallS(1), P>>)]
 ProgFor(sh, ctx) ==
-  IF ctx = "PAT"
+  IF ctx = "BW"
+  THEN [fns |-> Fns(sh) \o <<Wrapper>>,
+        rules |-> << [kind |-> "B", body |-> Blk(<<P, CallS(Len(Fns(sh)) + 1), P>>)], [kind |-> "EF", body |-> P] >>, n |-> 1]
+  ELSE IF ctx = "PAT"
   THEN [fns |-> Fns(sh), rules |-> << [kind |-> "B", body |-> P], [kind |-> "P", pat |-> [k |-> "call", f |-> 1], body |-> P], [kind |-> "E", body |-> P] >>, n |-> 1]
   ELSE [fns |-> Fns(sh), rules |-> << [kind |-> ctx, body |-> Blk(<<P, CallS(1), P>>)], [kind |-> "EF", body |-> P] >>, n |-> 1]
 
